@@ -138,6 +138,16 @@ def run(ctx):
                     spec.midloss = 0
                     fault = r.choice(["none", "none", "lose-clean"])
                     at = r.randint(4, 8)
+            if si % 12 == 3:
+                # the server closes CLEANLY while the script sits in a short pause; what is left of the script takes less than the
+                # 0.1 s between the loss and reactor.stop, so it runs to its end on the dead connection - that is not success
+                spec = build_session(r, kinds=["key", "move", "click"], ncmd=r.randint(1, 2))
+                spec.words = spec.words + ["pause", r.choice(["0", "0.25"])] + r.choice([["key", "b"], ["key", "b", "move", "3", "4"], ["click", "1"]])
+                spec.warp, spec.delay = 4.0, 0          # (durations stay dyadic: the model counts in ticks of 1/8192 s)
+                spec.timeout = r.choice([None, None, 5.0])
+                spec.close_reset = 0
+                fault, at = "lose-clean", 0
+                ctx.count("sessions_lost_cleanly_in_a_short_pause")
             if si % 12 == 7:
                 # ... deterministically: the last capture is pending, a screen exists, the server closes (cleanly or not)
                 spec = build_session(r, kinds=["capture", "key"], ncmd=r.randint(1, 2))
